@@ -546,6 +546,11 @@ func (e *FuncEnc) contractCall(in ssa.Instruction, f *ssa.Function, c *Contract,
 			e.havocAll(e.cur)
 		} else {
 			for _, k := range sortedKeys(keys) {
+				if _, known := e.heapSorts[k]; !known {
+					if s, ok := modSortRegistry.Load(k); ok {
+						e.heapSorts[k] = s.(string)
+					}
+				}
 				e.havocHeap(e.cur, k)
 			}
 		}
